@@ -413,6 +413,7 @@ static int vk_epoll_wait_common(const char *name, int epfd, struct epoll_event *
 	char ibuf[2048], gbuf[1024];
 	size_t n;
 	int i, nr, rot, pass;
+	int rep_fd[MAXENT];
 
 	if (ep == NULL) {
 		errno = EBADF;
@@ -457,6 +458,7 @@ static int vk_epoll_wait_common(const char *name, int epfd, struct epoll_event *
 			if (r) {
 				events[nr].events = r;
 				events[nr].data.u64 = s->data;
+				rep_fd[nr] = s->fd;
 				nr++;
 				if (s->events & EPOLLONESHOT) {
 					int j;
@@ -488,7 +490,15 @@ static int vk_epoll_wait_common(const char *name, int epfd, struct epoll_event *
 				vk_clock = wake;
 		}
 	}
-	vk_trace("R n=%d clk=%lld", nr, vk_clock);
+	{
+		char fb[1024];
+		size_t fn = 0;
+
+		fb[0] = 0;
+		for (i = 0; i < nr && fn < sizeof(fb) - 16; i++)
+			fn += snprintf(fb + fn, sizeof(fb) - fn, "%s%d", i ? "," : "", rep_fd[i]);
+		vk_trace("R n=%d f=%s clk=%lld", nr, fb, vk_clock);
+	}
 	return nr;
 }
 
@@ -611,7 +621,19 @@ static int vk_poll_common(const char *name, struct pollfd *pfds, nfds_t nfds, lo
 				nr++;
 		}
 	}
-	vk_trace("R n=%d clk=%lld", nr, vk_clock);
+	{
+		char fb[1024];
+		size_t fn = 0;
+		int first = 1;
+
+		fb[0] = 0;
+		for (i = 0; i < nfds && fn < sizeof(fb) - 16; i++)
+			if (pfds[i].revents) {
+				fn += snprintf(fb + fn, sizeof(fb) - fn, "%s%d", first ? "" : ",", pfds[i].fd);
+				first = 0;
+			}
+		vk_trace("R n=%d f=%s clk=%lld", nr, fb, vk_clock);
+	}
 	return nr;
 }
 
